@@ -13,6 +13,7 @@ import PoetryVerif.Proofs.VRangePred
 import PoetryVerif.Proofs.VRangeParse
 import PoetryVerif.Model.VPrint
 import PoetryVerif.Proofs.VRangeTextU
+import PoetryVerif.Proofs.VRangeTextV
 
 set_option linter.unusedSimpArgs false
 set_option linter.unusedVariables false
@@ -275,6 +276,39 @@ The printed text is taken through the whole of `parse_constraint` — `strip`, t
 `parse_single_constraint`'s regex cascade, `Version.parse`, `intersect`, `VersionUnion.of` — on strings.  The
 hypothesis on the bounds is `TextOK`: the text of the version is a digit-headed run of version characters that
 `VERSION_PATTERN` consumes entirely giving back the same fields, and it does not end in `-`. -/
+
+/-- **every well-formed version in normal-form text carries a re-parsable text** (`TextOK`): the text
+`PEP440Version.to_string` writes — `N!` epoch, release, `aN`/`bN`/`rcN`, `.postN`, `.devN`, `+local` — is
+consumed entirely by `VERSION_PATTERN` and gives the same fields back, for ALL numbers, tags and labels (`LocOK`:
+the local label's segments are as the parser stores them — lower-case letters and digits, a numeric segment
+without leading zeros).  In particular every bound built by a bump function (`Version.mk'`). -/
+theorem normal_text_ok (v : Version) (hwf : v.wf = true) (hn : NormalText v) (hl : LocOK v.loc) : TextOK v :=
+  textOK_of_normal v hwf hn hl
+
+/-- **`Version.parse(v.to_string())` gives `v` back** (with the normal-form text as its text), an equal version —
+the string-level form of C03's re-parse obligation -/
+theorem version_to_string_reparse (v : Version) (hwf : v.wf = true) (hl : LocOK v.loc) :
+    Version.parse v.toString = .ok { v with text := v.toString } ∧
+      Version.cmp v { v with text := v.toString } = .eq := by
+  have h := textOK_mk' v.epoch v.release v.pre v.post v.dev v.loc (by
+    obtain ⟨e, rel, pre, post, dev, loc, text⟩ := v; exact hwf) hl
+  exact ⟨h.parse, by obtain ⟨e, rel, pre, post, dev, loc, text⟩ := v; exact cmp_refl _⟩
+
+private def exNormal : Version :=
+  { epoch := 1, release := [2, 3, 0], pre := some ⟨.rc, 4⟩, post := some ⟨.post, 5⟩, dev := some ⟨.dev, 6⟩,
+    loc := some ["ubuntu", "7"], text := "1!2.03.0RC4.post5.dev6+Ubuntu.007" }
+
+example : let v := exNormal
+    Version.parse "1!2.03.0RC4.post5.dev6+Ubuntu.007" = .ok v ∧ v.wf = true ∧ LocOK v.loc ∧
+    v.toString = "1!2.3.0rc4.post5.dev6+ubuntu.7" := by
+  intro v
+  refine ⟨by decide, by decide, ?_, by decide⟩
+  intro segs hs s hmem
+  simp only [v, exNormal] at hs
+  injection hs with hs
+  subst hs
+  simp only [List.mem_cons, List.mem_nil_iff, or_false] at hmem
+  rcases hmem with rfl | rfl <;> exact ⟨by decide, by decide, by decide⟩
 
 /-- **a single version is read back from its text, identically** -/
 theorem version_text_roundtrip (v : Version) (hv : v.wf = true) (ht : TextOK v) :
